@@ -17,21 +17,34 @@ PROPS = ["C13", "C14", "C15"]
 
 
 class Ids:
-    """content hash -> small integer id (ids start at 10 so they never collide with the model's -1 / -2 markers)"""
+    """content -> small integer id (ids start at 10 so they never collide with the model's -1 / -2 markers).
+    Integer / bool leaves must match exactly.  Float leaves match within 1e-6 relative: two different XLA programs (vmap of a
+    cond vs lax.map, jit vs jit-of-scan) may differ in the last ulp of a float result (x/c compiled as x*(1/c)); such values
+    are the same value for every property about the wrappers, and naming them by exact bytes raised a false alarm."""
 
     def __init__(self):
-        self.d = {}
+        self.buckets = {}
+        self.n = 0
 
     def __call__(self, tree):
         import jax
         h = hashlib.sha1()
+        floats = []
         for l in jax.tree_util.tree_leaves(tree):
             a = np.asarray(l)
-            h.update(str(a.dtype).encode() + str(a.shape).encode() + a.tobytes())
+            h.update(str(a.dtype).encode() + str(a.shape).encode())
+            if a.dtype.kind == "f":
+                floats.append(a.astype(np.float64).reshape(-1))
+            else:
+                h.update(a.tobytes())
         k = h.digest()
-        if k not in self.d:
-            self.d[k] = 10 + len(self.d)
-        return self.d[k]
+        fl = np.concatenate(floats) if floats else np.zeros(0)
+        for (ref, i) in self.buckets.setdefault(k, []):
+            if ref.shape == fl.shape and np.allclose(ref, fl, rtol=1e-6, atol=1e-7, equal_nan=True):
+                return i
+        self.n += 1
+        self.buckets[k].append((fl, 9 + self.n))
+        return 9 + self.n
 
 
 def named(x):
@@ -307,14 +320,19 @@ def analyze(kit):
 
 
 def _same(a, b):
+    """same structure, shapes, dtypes; integer/bool leaves bit-equal, float leaves within 1e-6 relative (see Ids)"""
     import jax
-    from jumanji.testing import pytrees
     la, lb = jax.tree_util.tree_leaves(a), jax.tree_util.tree_leaves(b)
     if len(la) != len(lb):
         return False
     for x, y in zip(la, lb):
         x, y = np.asarray(x), np.asarray(y)
-        if x.shape != y.shape or x.dtype != y.dtype or x.tobytes() != y.tobytes():
+        if x.shape != y.shape or x.dtype != y.dtype:
+            return False
+        if x.dtype.kind == "f":
+            if not np.allclose(x, y, rtol=1e-6, atol=1e-7, equal_nan=True):
+                return False
+        elif x.tobytes() != y.tobytes():
             return False
     return True
 
